@@ -28,7 +28,8 @@ class FakeReactor(object):
     self.triggers.append((phase, event, f, a, kw))
 
   def callInThread(self, f, *a, **kw):
-    raise HarnessError('callInThread is not expected in this harness')
+    # the harness runs writeForever() on its own scheduled thread; what the service asks for is only noted
+    self.in_thread = getattr(self, 'in_thread', []) + [f]
 
 
 class WriterRun(object):
@@ -96,6 +97,13 @@ def run_case(case, trace_cache=True, schemas_text=None, aggregation_text=None, s
     writer.time = sched.time
     run.writer = writer
     unshim = install_threading_shim(sched, [writer, b.cache, b.util, b.events])
+    # the service registers its own shutdown triggers with the reactor, as in the daemon
+    svc = env.need(writer, 'WriterService')()
+    try:
+      svc.startService()
+    except Exception as e:  # noqa
+      raise HarnessError('WriterService.startService() failed in the harness: %r' % (e,))
+    run.service = svc
     cache = b.cache.MetricCache()
     cache.lock = sched.make_lock(like=cache.lock)
     run.cache = cache
@@ -132,10 +140,12 @@ def run_case(case, trace_cache=True, schemas_text=None, aggregation_text=None, s
       }
       if stop_mode == 'orderly':
         # the registered 'before shutdown' trigger; Twisted logs a trigger that raises and carries on stopping
-        try:
-          writer.shutdownModifyUpdateSpeed()
-        except Exception as e:  # noqa: what it leaves undone is judged on the data
-          run.trigger_exc = e
+        for (phase, event, f, a, kw) in list(reactor.triggers):
+          if phase == 'before' and event == 'shutdown':
+            try:
+              f(*a, **kw)
+            except Exception as e:  # noqa: what it leaves undone is judged on the data
+              run.trigger_exc = e
       reactor.running = False                   # what reactor.crash() does in the 'during' phase
 
     def recv_body():
@@ -178,6 +188,11 @@ def run_case(case, trace_cache=True, schemas_text=None, aggregation_text=None, s
     run.update_bucket = writer.UPDATE_BUCKET
     return run
   finally:
+    try:
+      if getattr(run, 'service', None) is not None:
+        run.service.stopService()
+    except Exception:  # noqa
+      pass
     unshim()
     b.util.time = saved['util.time']
     b.util.sleep = saved['util.sleep']
